@@ -438,6 +438,9 @@ type checker struct {
 	// several read paths on one handle (reuse.go)
 	reusedHandle []string // a step disagrees after other reads on the same handle, and agrees on a handle of its own
 	rowDiffers   []string // Row() itself disagrees with the rows Find returns
+	// chains that carry a Select of some columns (selected.go)
+	selCols   []string // a read path disagrees with the reference on the selected columns
+	selReused []string // ... only after other reads on the same reusable handle
 }
 
 func (k *checker) add(f string, a ...interface{}) {
@@ -1266,6 +1269,8 @@ func run(c *core.Ctx) {
 		emit("Find[]map:used-slice-appended-to", k.mapAppend, true)
 		emit("ReadPaths:reused-handle", k.reusedHandle, true)
 		emit("Row:differs-from-Find", k.rowDiffers, true)
+		emit("ReadPaths:selected-columns", k.selCols, true)
+		emit("ReadPaths:selected-columns:reused-handle", k.selReused, true)
 		return len(k.problems) > 0
 	}
 	// through a Scopes call (one chain in three; two in three of these hand back a new session)
@@ -1392,6 +1397,7 @@ func run(c *core.Ctx) {
 			k.sharedBase(mt)
 			k.joined(mt)
 			k.reused(want, mt)
+			k.selected(want, mt)
 			return k
 		}
 		_, want := cc.reference(table)
@@ -1443,8 +1449,9 @@ var Engine = &core.Engine{
 		"every second time each slice / array destination has been used before (it still holds the whole table, all matching rows or a page when the chain under test is read into it; an array must be zero beyond the rows reported); " +
 		"all of it once more from one reusable base (0..3 Order calls) whose derived handles are run after the base was used again, and on a chain with hand-built joins executed repeatedly; a read that fails at run time while the first row is produced must fail on every path; " +
 		"and 2..5 read paths one after another on ONE REUSABLE handle made of the chain (Session(&gorm.Session{}), WithContext, Debug, a session of a session; bound to the model; the chain may carry Scopes): random steps out of Row() (scanned column by column: the first row of the chain, sql.ErrNoRows when the chain selects none, Limit(0) included), Rows+ScanRows, Find into []T, into []map, into a slice of a two-column struct, Scan, Count (chains without Limit/Offset), Pluck(id), Pluck(s), First / Last / Take (no order, no window), FindInBatches (key order, random batch size), any path at any position; every step is compared with the reference, a panic inside a step is that step's result. " +
-		"Signatures: ReadPaths / FindInBatches, with the suffix :through-scope, :used-destination when the same chain read directly into fresh destinations is fine; classes of their own (once per case): Scan:used-slice-kept-on-empty-result, Find[]map:used-slice-appended-to; on one handle: ReadPaths:reused-handle (a step disagrees with the reference after other reads on the handle, the same step first on a handle built the same way agrees), Row:differs-from-Find (Row() itself, also as the first step). " +
-		"distinct = (size, batch, limit, offset, conditioned, rows delivered) resp. (size, calls, order, units, scope kind, used destinations) resp. (handle kind, first step, steps, last step, calls, order) of an agreeing sequence on one handle that delivered rows; non-trivial = at least one row delivered, or an empty window read into used destinations, or single-record finders through a scope",
+		"The same on chains that carry a Select of 1..6 of the model's columns in a random sequence (spelled Select(\"c1\", \"c2\", ..), Select([]string{..}) or Select([]string{\"c1\"}, \"c2\", ..); as the first or the last call of the chain; the chain may carry Scopes, Order, Limit/Offset): 2..5 read paths one after another on one reusable handle of it (Session, WithContext, Debug, session of a session), or one read path on the chain value itself: Find into []T and []*T (selected columns hold the reference values, the others are zero), Find into []map, Scan, Rows+ScanRows, Pluck of EACH SELECTED column (the column of the rows Find returns, RowsAffected = values), Count (no Limit/Offset), First / Last / Take (no order, no window), FindInBatches (key selected, key order); a panic inside a step is that step's result. " +
+		"Signatures: ReadPaths / FindInBatches, with the suffix :through-scope, :used-destination when the same chain read directly into fresh destinations is fine; classes of their own (once per case): Scan:used-slice-kept-on-empty-result, Find[]map:used-slice-appended-to; on one handle: ReadPaths:reused-handle (a step disagrees with the reference after other reads on the handle, the same step first on a handle built the same way agrees), Row:differs-from-Find (Row() itself, also as the first step); chains with selected columns: ReadPaths:selected-columns, and ReadPaths:selected-columns:reused-handle when the same step as the first one on a handle built the same way agrees. " +
+		"distinct = (size, batch, limit, offset, conditioned, rows delivered) resp. (size, calls, order, units, scope kind, used destinations) resp. (handle kind, first step, steps, last step, calls, order) of an agreeing sequence on one handle that delivered rows resp. (handle kind, Select spelling, columns, Select first/last, first step, steps, window, order) of an agreeing sequence on a chain with selected columns that delivered rows; non-trivial = at least one row delivered, or an empty window read into used destinations, or single-record finders through a scope",
 	Assumptions: []string{
 		"keys have gaps; rows are inserted with raw SQL",
 		"Limit(0) is only used as the sole Limit call (LIMIT 0: Find returns nothing); mixed zero/positive sequences are not covered by the statement's override/cancel sentence and are not generated",
@@ -1453,6 +1460,7 @@ var Engine = &core.Engine{
 		"FindInBatches gets its Limit/Offset on the chain itself, never from inside a scope (it reads them before scopes run); the conditions may come from a scope",
 		"not generated, because the statement does not fix it: chaining on the handle returned by Count when the chain went through Scopes (after a scope that hands back a new session the handle keeps SELECT count(*)); re-executing a chain value that carries Scopes; single-record finders into a struct that already holds a key (the key becomes a condition); maps as used destinations of Take",
 		"excluded as documented misuse: a chain value (h := db.Model(..).Where(..), no Session / WithContext / Debug behind it) executed more than once - the sequences of several reads run on reusable handles only (the older joined block, which re-executes a chain value with Find and Count only, is unchanged); destinations of these sequences are fresh, ScanRows is called on the root handle; Row() is read with SELECT * of the model (columns in table order) and, without an explicit order, may deliver any row of the chain",
+		"chains with selected columns: not generated, because the statement does not fix it: Pluck of a column that is NOT among the selected ones (with one selected column Pluck keeps that column: the Select(expr).Pluck(alias) idiom), several columns in one Select string (\"id, a\" stays one raw select item, Pluck keeps it), Count on a chain whose only selected column is nullable (count(column) leaves out NULLs), FindInBatches without the key among the selected columns (the key is the cursor), Row(); Pluck destinations are []int64 / []string / []sql.NullInt64 / []sql.NullString - slices of POINTERS to primitives ([]*int64, []*string) are not generated: Pluck of a column holding NULL into them fails on every chain (with or without Select) with 'converting NULL to int64 is unsupported', a matter of the destination kind, not of the chain",
 	},
 	Cases:         func(tier string) int { return (maxN(tier) + 1) * (maxN(tier) + 2) * reps(tier) },
 	Batch:         func(tier string) int { return 48 },
